@@ -212,6 +212,24 @@ where
                 }
                 o.extra += 2;
             }
+            // the same action through the trait-level entry point and the core function with the scheme's tag
+            {
+                let t = crate::paths::sign::<C>(scheme, &sk.0, &msg);
+                let lib_bytes = sk.sign(scheme_of(scheme), &msg).ok().map(|s| enc_s::<C>(s.as_raw_value()));
+                if t.as_ref().ok().map(|p| enc_s::<C>(p)) != lib_bytes {
+                    return Outcome::fail(json!({"path": "trait"}), "the trait-level sign and SecretKey::sign disagree");
+                }
+                if scheme != "Aug" {
+                    let c = <C as BlsSignatureCore>::core_sign(&sk.0, &msg, crate::paths::dst::<C>(scheme));
+                    if c.as_ref().ok().map(|p| enc_s::<C>(p)) != lib_bytes {
+                        return Outcome::fail(json!({"path": "core"}), "core_sign with the scheme's tag and SecretKey::sign disagree");
+                    }
+                }
+                if enc_k::<C>(&<C as BlsSignatureCore>::public_key(&sk.0)) != Vec::<u8>::from(&sk.public_key())[..] {
+                    return Outcome::fail(json!({"path": "trait"}), "the trait-level public_key and SecretKey::public_key disagree");
+                }
+                o.extra += 3;
+            }
             o
         }
         "Verify" => {
@@ -250,6 +268,14 @@ where
                 return Outcome::fail(json!({"lib": got.0, "ref": rv}), "decision differs from the independent CoreVerify");
             }
             o.extra += 1;
+            // the same tuple through the trait-level entry point
+            {
+                let t = crate::paths::class(&crate::paths::verify::<C>(&label, pk.0, pt, &msg));
+                if t.0 != got.0 {
+                    return Outcome::fail(json!({"path": "trait", "trait": t.0, "struct": got.0}), format!("spec predicts {}, the trait-level verify returned {}", expect_res(v), t.0));
+                }
+                o.extra += 1;
+            }
             // same point, other projective representation: same decision
             let sig2 = wrap_sig::<C>(&label, rerandomise(pt));
             let pk2 = PublicKey::<C>(rerandomise(pk.0));
@@ -373,6 +399,13 @@ where
                 }
                 o.extra += 2;
             }
+            {
+                let t = <C as BlsSignaturePop>::pop_prove(&sk.0);
+                if t.as_ref().ok().map(|p| enc_s::<C>(p)) != sk.proof_of_possession().ok().map(|p| enc_s::<C>(&p.0)) {
+                    return Outcome::fail(json!({"path": "trait"}), "the trait-level pop_prove and SecretKey::proof_of_possession disagree");
+                }
+                o.extra += 1;
+            }
             o
         }
         "PopVerify" => {
@@ -394,6 +427,13 @@ where
                 return Outcome::fail(json!({"lib": got.0, "ref": rv}), "decision differs from the independent PopVerify");
             }
             o.extra += 1;
+            {
+                let t = crate::paths::class(&<C as BlsSignaturePop>::pop_verify(pk.0, pt));
+                if t.0 != got.0 {
+                    return Outcome::fail(json!({"path": "trait", "trait": t.0, "struct": got.0}), format!("spec predicts {}, the trait-level pop_verify returned {}", expect_res(v), t.0));
+                }
+                o.extra += 1;
+            }
             if getb(v, "honest") {
                 // a change of the proof outside the subgroup (proof + small-order point, through every decoder):
                 // it must not decode, and if it ever does it must not verify
@@ -459,6 +499,13 @@ where
                     return Outcome::fail(json!({}), "aggregate bytes differ from the reference sum");
                 }
                 o.extra += 1;
+                let pts: Vec<<C as Pairing>::Signature> = arts.iter().map(|(_, p)| *p).collect();
+                for t in crate::paths::sig_sums::<C>(&pts) {
+                    if t != sum {
+                        return Outcome::fail(json!({"path": "trait"}), "a trait-level signature sum differs from the plain group sum");
+                    }
+                    o.extra += 1;
+                }
             }
             o
         }
@@ -512,6 +559,18 @@ where
                 return Outcome::fail(json!({"lib": got.0, "ref": rv}), "decision differs from the independent AggregateVerify");
             }
             o.extra += 1;
+            {
+                let mut sum = <C as Pairing>::Signature::identity();
+                for (_, p) in &arts {
+                    sum += *p;
+                }
+                let tp: Vec<(<C as Pairing>::PublicKey, Vec<u8>)> = pairs.iter().map(|(p, m)| (p.0, m.clone())).collect();
+                let t = crate::paths::class(&crate::paths::aggregate_verify::<C>(scheme, &tp, sum));
+                if t.0 != got.0 {
+                    return Outcome::fail(json!({"path": "trait", "trait": t.0, "struct": got.0}), format!("spec predicts {}, the trait-level aggregate_verify returned {}", expect_res(v), t.0));
+                }
+                o.extra += 1;
+            }
             o
         }
         "MultiVerify" => {
@@ -547,6 +606,23 @@ where
                 return Outcome::fail(json!({"lib": got.0, "ref": rv}), "decision differs from the independent verification");
             }
             o.extra += 1;
+            {
+                let raw: Vec<<C as Pairing>::PublicKey> = pks.iter().map(|p| p.0).collect();
+                for t in crate::paths::key_sums::<C>(&raw) {
+                    if t != mpk.0 {
+                        return Outcome::fail(json!({"path": "trait"}), "a trait-level public key sum differs from MultiPublicKey::from_public_keys");
+                    }
+                }
+                let mut sum = <C as Pairing>::Signature::identity();
+                for (_, p) in &arts {
+                    sum += *p;
+                }
+                let t = crate::paths::class(&crate::paths::multi_verify::<C>(gets(v, "scheme"), &raw, sum, &msg));
+                if t.0 != got.0 {
+                    return Outcome::fail(json!({"path": "trait", "trait": t.0, "struct": got.0}), format!("spec predicts {}, the trait-level multi-signature verification returned {}", expect_res(v), t.0));
+                }
+                o.extra += 3;
+            }
             o
         }
         x => Outcome::fail(json!({}), format!("signet: unknown act {x}")),
